@@ -65,6 +65,32 @@ theorem locked_answers_constant (c : CSt) (h : c ≠ .unknown) (qs : List (LockS
 theorem failed_sticky (b : LockSt) (q : Q) : (step b .failed q).1 = .failed := by
   cases b <;> cases q <;> simp [step, askLocked, askFailed]
 
+/-! ### what `jug status` does with the answers -/
+
+/-- the lock state the status code derives from its two questions (`is_locked()`, then `is_failed()` for a locked one) -/
+def lockFromAnswers (locked failed : Bool) : LockSt := if !locked then .free else if failed then .failed else .held
+
+/-- asked through a wrapper in any coherent state - fresh, initialised from a listing, or after any earlier questions -
+    the status code reconstructs the lock state as it is -/
+theorem lock_seen_through_wrapper (b : LockSt) (c : CSt) (h : Coherent b c) :
+    lockFromAnswers (step b c .isLocked).2 (step b (step b c .isLocked).1 .isFailed).2 = b := by
+  cases b <;> cases c <;> simp_all [Coherent, lockFromAnswers, step, askLocked, askFailed, baseIsLocked, baseIsFailed]
+
+/-- ... also when `is_failed()` is asked first, or alone (it asks `is_locked()` itself) -/
+theorem lock_seen_failed_first (b : LockSt) (c : CSt) (h : Coherent b c) :
+    lockFromAnswers (step b (step b c .isFailed).1 .isLocked).2 (step b c .isFailed).2 = b := by
+  cases b <;> cases c <;> simp_all [Coherent, lockFromAnswers, step, askLocked, askFailed, baseIsLocked, baseIsFailed]
+
+/-- so the classification computed through wrappers is the classification of the store as it is (`classify` of Model/Graph.lean
+    is what `cached_eq_uncached` and `classifier_table_matches` are about) -/
+theorem classify_through_wrappers (deps : Task → List Task) (res : Task → Bool) (lock : Task → LockSt) (cs : Task → CSt)
+    (h : ∀ t, Coherent (lock t) (cs t)) (t : Task) :
+    classify deps res (fun u => lockFromAnswers (step (lock u) (cs u) .isLocked).2 (step (lock u) (step (lock u) (cs u) .isLocked).1 .isFailed).2) t
+      = classify deps res lock t := by
+  have : (fun u => lockFromAnswers (step (lock u) (cs u) .isLocked).2 (step (lock u) (step (lock u) (cs u) .isLocked).1 .isFailed).2) = lock := by
+    funext u; exact lock_seen_through_wrapper (lock u) (cs u) (h u)
+  rw [this]
+
 /-! ### can_load -/
 
 def KCoherent (base : Nat → Bool) (k : KSt) : Prop :=
